@@ -53,6 +53,9 @@ def reconn_scenarios(tier, rng):
         sc = S("ka-slow%d" % j, [P(1)], ["conn"], [{"p": "PINGREQ", "n": k, "o": "lateAck"} for k in range(1, 12)],
                opts=dict(opts, pingMs=10, connTimeoutMs=250, quietMs=200))
         out.append(sc)
+    # a very prompt peer: the PINGRESP has been read and dispatched before Transport.Write of the PINGREQ returns
+    for j in range(2 if tier == "quick" else 10):
+        out.append(S("ka-prompt%d" % j, [P(1)], ["conn"], [], opts=dict(opts, pingMs=8, promptAcks=True, quietMs=200)))
     # the application pings too (Client.Ping is part of the public interface): PINGRESPs carry no identifier,
     # and every ping of the keep-alive loop must still get its response while the broker answers every PINGREQ
     for j in range(3 if tier == "quick" else 20):
@@ -166,7 +169,7 @@ def run(tier):
         "states": r.states + rp.states + totals["states"], "transitions": r.generated + rp.generated + totals["states"],
         "traces_validated_against_impl": nval, "keepalive_scripts_run_on_real_code": len(got), "script_mismatches": mism,
         "evaluations": len(got) + len(rec), "distinct_nontrivial": nontriv + len(rec),
-        "rule": "all ping-outcome scripts of length <= %d over 5 letters (non-trivial: contains a non-ok outcome) on the real KeepAlive; reconnecting client with swallowed PINGREQs on first / re-established connections and healthy runs" % maxlen,
+        "rule": "all ping-outcome scripts of length <= %d over 6 letters (incl. answers slower than the interval but within the timeout), ping cadence runs, (non-trivial: contains a non-ok outcome) on the real KeepAlive; reconnecting client with swallowed PINGREQs on first / re-established connections and healthy runs" % maxlen,
         "samples": [{"script": table[len(table) // 3]["s"], "expected": table[len(table) // 3]["res"]}, {"scenario": rec[1]}],
         "exhaustive": True,
     }, time.time() - t0, ["the scripted client honours its context (returns ctx.Err() when it is done)",
